@@ -29,7 +29,7 @@ def run_il_exec(idx, cls, fields, method="il_exec"):
         obj = AObj(cls, fields(), label="self")
         return interp.call_function(fi, [], self_obj=obj)
 
-    return fi, Interp(idx, sym_compare=interval_compare()).explore(once)
+    return fi, Interp(idx, sym_compare=interval_compare(), may_subclass=True).explore(once)
 
 
 def members_by_value(idx, enum):
